@@ -97,6 +97,7 @@ type syncRun struct {
 	sp         *SyncPlan
 	S, T       *Node
 	L, P       uint32
+	mtbAt      []uint32 // the source's MaxTraceableBlocks by height
 	deliveries int
 	restarts   map[int]bool
 	tlocal     Local
@@ -151,6 +152,7 @@ func (r *run) runSync() {
 	}
 	r.w.accounts = append(r.w.accounts, S.Exec.Validator.ScriptHash(), S.Exec.CommitteeHash, nativehashes.OracleContract)
 	blocks := append([]BlockPlan{{}}, r.plan.Blocks...)
+	mtbAt := []uint32{S.BC.GetMaxTraceableBlocks()} // MaxTraceableBlocks of the source after each of its blocks
 	for bi, bp := range blocks {
 		var pre []*transaction.Transaction
 		if bi == 0 {
@@ -162,12 +164,20 @@ func (r *run) runSync() {
 		if _, ok := r.produce(bp, pre); !ok {
 			return
 		}
+		// (a step that added several blocks and changed the value: the heights in between stay unknown)
+		for h, top, was := uint32(len(mtbAt)), S.BC.BlockHeight(), mtbAt[len(mtbAt)-1]; h <= top; h++ {
+			if v := S.BC.GetMaxTraceableBlocks(); h == top || v == was {
+				mtbAt = append(mtbAt, v)
+			} else {
+				mtbAt = append(mtbAt, 0)
+			}
+		}
 	}
 	if err := S.BC.VerifPersist(false); err != nil {
 		sim.Harnessf("flush S: %v", err)
 	}
 	sim.Wait()
-	sr := &syncRun{r: r, sp: sp, S: S, L: S.BC.BlockHeight(), restarts: map[int]bool{}}
+	sr := &syncRun{r: r, sp: sp, S: S, L: S.BC.BlockHeight(), restarts: map[int]bool{}, mtbAt: mtbAt}
 	for _, x := range sp.Restarts {
 		sr.restarts[x] = true
 	}
@@ -631,6 +641,17 @@ func (sr *syncRun) feedBlocks() bool {
 	r := sr.r
 	m := sr.module()
 	next := m.BlockHeight() + 1
+	if int(sr.P) < len(sr.mtbAt) {
+		// the blocks stage may only need blocks that are traceable at the sync point: those are what a peer that removes
+		// untraceable blocks still has when it stands at P. A module that starts further back cannot complete from such peers.
+		if mtb := sr.mtbAt[sr.P]; mtb != 0 && next+mtb <= sr.P {
+			r.violate(sim.Violatef("sync-untraceable-block-needed", "", "the blocks stage asks for block %d, which is not traceable at the sync point %d (MaxTraceableBlocks there is %d, genesis %d): peers that drop untraceable blocks cannot serve it", next, sr.P, mtb, sr.mtbAt[0]))
+			return false
+		}
+		if sr.mtbAt[sr.P] != sr.mtbAt[0] && sr.mtbAt[sr.P] != 0 {
+			r.out.Probes["sync_blocks_stage_after_mtb_change"]++
+		}
+	}
 	if sr.sp.BadPM > 0 && r.tape.Chance(sr.sp.BadPM, 1000) && next+1 <= sr.P {
 		// out of order / wrong block: must be refused without damage
 		err := m.AddBlock(r.blks[next+1])
